@@ -57,13 +57,18 @@ def run_filter(c, d, a, idx, inp, outp, tag, p=None):
     exprs = None
     if c.get('exprs') is not None:
         exprs = os.path.join(d, 'exprs_%s.tsv' % tag)
+        t = c.get('table')
         with open(exprs, 'w') as f:
-            for _ in range(c.get('skip_lines', 0)):
-                f.write('# comment\n')
-            if c.get('header'):
-                f.write('\t'.join(c['header']) + '\n')
-            for row in c['exprs']:
-                f.write('\t'.join(row) + '\n')
+            if t:
+                for line in t['lines']:
+                    f.write(line + '\n')
+            else:
+                for _ in range(c.get('skip_lines', 0)):
+                    f.write('# comment\n')
+                if c.get('header'):
+                    f.write('\t'.join(c['header']) + '\n')
+                for row in c['exprs']:
+                    f.write('\t'.join(row) + '\n')
     deny = None
     if c.get('denylist') is not None:
         deny = os.path.join(d, 'deny_%s.fasta' % tag)
@@ -71,7 +76,10 @@ def run_filter(c, d, a, idx, inp, outp, tag, p=None):
     ns = argparse.Namespace(
         command='filterFasta', input_path=Path(inp), output_path=Path(outp),
         denylist=Path(deny) if deny else None, exprs_table=Path(exprs) if exprs else None,
-        skip_lines=c.get('skip_lines', 0), delimiter='\t', tx_id_col=c.get('tx_id_col', '1'), quant_col=c.get('quant_col', '2'),
+        skip_lines=(c['table']['skip_lines'] if c.get('table') else c.get('skip_lines', 0)),
+        delimiter=(c['table']['delimiter'] if c.get('table') else '\t'),
+        tx_id_col=(c['table']['tx_id_col'] if c.get('table') else c.get('tx_id_col', '1')),
+        quant_col=(c['table']['quant_col'] if c.get('table') else c.get('quant_col', '2')),
         quant_cutoff=c.get('cutoff'), keep_all_coding=c.get('kac', False), keep_all_noncoding=c.get('kan', False),
         keep_canonical=c.get('keep_canonical', False), miscleavages=c.get('miscleavages'), enzyme=c.get('enzyme', 'trypsin'),
         index_dir=Path(idx) if c.get('ref', 'index') == 'index' else None,
